@@ -171,7 +171,15 @@ class Escape:
     # -- per function helpers ----------------------------------------------------------
     def paths(self, qn: str) -> T.List[Path]:
         if qn not in self._paths:
-            self._paths[qn] = enumerate_paths(self.funcs[qn].body, unroll=2, handlers=True)
+            # unroll=2 is needed for `while True: ... break` bodies; large scanners fall back to one unrolling, then to no path evidence
+            branches = sum(1 for x in walk_no_nested(self.funcs[qn]) if isinstance(x, (ast.If, ast.For, ast.While, ast.Try, ast.BoolOp, ast.IfExp)))
+            for k in ((2, 1) if branches <= 16 else ()):
+                try:
+                    self._paths[qn] = enumerate_paths(self.funcs[qn].body, unroll=k, handlers=True, max_paths=1500)
+                    break
+                except Undecided:
+                    self._paths[qn] = []
+            self._paths.setdefault(qn, [])
         return self._paths[qn]
 
     def cfg(self, qn: str) -> CFG:
@@ -266,6 +274,11 @@ class Escape:
                     srcs.append(Source('UnicodeDecodeError', qn, n, 'codecs.decode() rejects escapes the escape regex admits (unknown \\N{name}, \\U above 10FFFF)'))
                 elif name == 'next':
                     srcs.append(Source('StopIteration', qn, n, 'next() on an exhausted iterator'))
+                elif isinstance(n.func, ast.Attribute) and n.func.attr == 'encode' and n.args and isinstance(n.args[0], ast.Constant) \
+                        and str(n.args[0].value).lower().replace('-', '').replace('_', '') not in ('utf8', 'utf16', 'utf32'):
+                    wit = self.callback_regex_admits(qn, '\u20ac')
+                    srcs.append(Source('UnicodeEncodeError', qn, n, f'`{short(n)}` cannot encode every character'
+                                       + (f'; the text comes from a match of a regex that admits {wit}' if wit else ''), bool(wit)))
             elif isinstance(n, ast.Subscript) and isinstance(n.ctx, ast.Load) and not isinstance(n.slice, ast.Slice):
                 if (attr_chain(n.value) or '').split('.')[0] in ('T', 'typing'):
                     continue
@@ -340,6 +353,19 @@ class Escape:
                         self.int_witness = f'token `{k}` alternative {v}'
                         return None
         return f'every alternative of the `{"/".join(sorted(kinds))}` regex is a radix-prefixed (power-of-two base) or length-bounded literal'
+
+    def callback_regex_admits(self, qn: str, ch: str) -> str:
+        """If function `qn` is used as the callback of `<REGEX>.sub(qn, ...)` and that regex can match `ch`: a description, else ''."""
+        for c in ast.walk(self.mod.tree):
+            if isinstance(c, ast.Call) and isinstance(c.func, ast.Attribute) and c.func.attr in ('sub', 'subn') and c.args \
+                    and isinstance(c.args[0], ast.Name) and c.args[0].id == qn:
+                try:
+                    r = fold_expr(self.repo, self.mod, c.func.value)
+                except Undecided:
+                    continue
+                if isinstance(r, Regex) and rx.matches_char(r.pattern, ch, r.flags):
+                    return f'U+{ord(ch):04X} (`{norm(c.func.value)}`)'
+        return ''
 
     def is_mapping(self, qn: str, e: ast.AST) -> bool:
         ch = attr_chain(e) or ''
